@@ -111,7 +111,7 @@ def sensornet_files(outdir, n, naming, minute0=10, drop_tail=0, info=None, acq=N
 SILIXA_TEMPLATES = {"v4": "silixa_v4.5", "v6-single": "single_ended", "v7": "silixa_v7.0", "v8": "silixa_v8.1", "v6-double": "double_ended2"}
 
 
-def silixa_files_from(template, outdir, n, nx, stamps_utc, acq, acq_bw=None):
+def silixa_files_from(template, outdir, n, nx, stamps_utc, acq, acq_bw=None, ms=None):
     """File set written from any bundled Silixa template (xml v4 / v6 / v7 / v8; 4 or 6 recorded items): per-cell tagged values,
     end-of-measurement stamps `stamps_utc` ('YYYY-MM-DDTHH:MM:SS', UTC), integer acquisition time(s). Returns (names, nitem)."""
     src_f = sorted(G.glob(f"{D}/{SILIXA_TEMPLATES[template]}/*.xml"))[0]
@@ -136,12 +136,13 @@ def silixa_files_from(template, outdir, n, nx, stamps_utc, acq, acq_bw=None):
         start = (datetime.fromisoformat(end) - timedelta(seconds=acq + (acq_bw or 0))).strftime("%Y-%m-%dT%H:%M:%S")
         t_all = head + "<logData>" + pre + rows + "  </logData>" + tail
         t_all = re.sub(r"<(start|min)DateTimeIndex>[^<]*<", lambda mm: f"<{mm.group(1)}DateTimeIndex>{start}.000Z<", t_all)
-        t_all = re.sub(r"<(end|max)DateTimeIndex>[^<]*<", lambda mm: f"<{mm.group(1)}DateTimeIndex>{end}.000Z<", t_all)
+        msf = f"{(ms[f] if ms else 0):03d}"   # milliseconds of the end stamp (several files may share one second)
+        t_all = re.sub(r"<(end|max)DateTimeIndex>[^<]*<", lambda mm: f"<{mm.group(1)}DateTimeIndex>{end}.{msf}Z<", t_all)
         t_all = re.sub(r"<acquisitionTime>[^<]*</acquisitionTime>", f"<acquisitionTime>{float(acq + (acq_bw or 0))}</acquisitionTime>", t_all)
         t_all = re.sub(r"<AcquisitionTime>[^<]*</AcquisitionTime>", f"<AcquisitionTime>{float(acq)}</AcquisitionTime>", t_all)
         t_all = re.sub(r"(<probe1Temperature[^>]*>)[^<]*(</probe1Temperature>)", lambda mm: f"{mm.group(1)}{1000 + f}{mm.group(2)}", t_all)
         dgt = re.sub(r"[-:T]", "", end)
-        name = (f"{prefix}UTC_{dgt[:8]}_{dgt[8:]}.000.xml" if utc else f"{prefix}{dgt}000.xml")
+        name = (f"{prefix}UTC_{dgt[:8]}_{dgt[8:]}.{msf}.xml" if utc else f"{prefix}{dgt}{msf}.xml")
         names.append(name)
         open(os.path.join(outdir, name), "w").write(t_all)
     return names, nitem
